@@ -199,7 +199,7 @@ def r1(report, db, F, basic, ref):
                               'prescribes type code %r' % (sfmt,
                                                            spec['code'])))
         # the value packed is the value parameter itself
-        if not (isinstance(ss[1], ast.Name) and ss[1].id == sd.params[0]):
+        if not (isinstance(ss[1], ast.Name) and ss[1].id == sd.all_params[0]):
             probs.append(('send', sd, 'packs %s, not the value parameter'
                           % ast.unparse(ss[1])))
         if not probs:
@@ -405,7 +405,7 @@ def r4(report, db, F, basic, ref):
         n += 1
         # ---- send
         val, effects, env = terms.straight_line_value(sd)
-        sock = sd.params[1] if len(sd.params) > 1 else None
+        sock = sd.all_params[1] if len(sd.params) > 1 else None
         ok = False
         msg = 'unrecognised shape'
         if len(effects) == 2:
@@ -432,11 +432,11 @@ def r4(report, db, F, basic, ref):
                     msgs.append('payload is not the UTF-8 encoding of the '
                                 'value (%s)' % ast.unparse(pay))
                 elif not (isinstance(pay.func.value, ast.Name) and
-                          pay.func.value.id == sd.params[0]):
+                          pay.func.value.id == sd.all_params[0]):
                     msgs.append('encodes %s, not the value parameter'
                                 % ast.unparse(pay.func.value))
             else:
-                if not (isinstance(pay, ast.Name) and pay.id == sd.params[0]):
+                if not (isinstance(pay, ast.Name) and pay.id == sd.all_params[0]):
                     msgs.append('payload sent is %s, not the value parameter'
                                 % ast.unparse(pay))
             if msgs:
@@ -455,7 +455,7 @@ def r4(report, db, F, basic, ref):
                  and isinstance(x.func, ast.Attribute)
                  and x.func.attr == 'read' and isinstance(x.func.value,
                                                           ast.Name)
-                 and x.func.value.id == rd.params[0]]
+                 and x.func.value.id == rd.all_params[0]]
         if len(reads) != 1 or effects:
             raise AnalysisError('unrecognised prefixed-read idiom in %s.read'
                                 % name, rd.node, rel(rd.path))
@@ -465,7 +465,7 @@ def r4(report, db, F, basic, ref):
             msgs.append('raw read has no length argument')
         else:
             la = raw.args[0]
-            pt = codec_read_type(la, rd.params[0])
+            pt = codec_read_type(la, rd.all_params[0])
             if pt is None:
                 msgs.append('requested length %s is not a decoded prefix'
                             % ast.unparse(la))
@@ -560,8 +560,8 @@ def check_prefixed_array(report, R, db, ci):
     if sd is None or rd is None:
         raise AnalysisError('PrefixedArray.send/read vanished', ci.node,
                             rel(ci.path))
-    me = ('sym', sd.params[0])
-    val, sock = ('sym', sd.params[1]), ('sym', sd.params[2])
+    me = ('sym', sd.all_params[0])
+    val, sock = ('sym', sd.all_params[1]), ('sym', sd.all_params[2])
     lt = ('attr', me, 'length_type')
     et = ('attr', me, 'element_type')
     ok = False
@@ -600,8 +600,8 @@ def check_prefixed_array(report, R, db, ci):
                          'does not write len(value) with length_type followed '
                          'by exactly one element write per element of value '
                          '(%s)' % why)
-    me = ('sym', rd.params[0])
-    stream = ('sym', rd.params[1])
+    me = ('sym', rd.all_params[0])
+    stream = ('sym', rd.all_params[1])
     lt = ('attr', me, 'length_type')
     et = ('attr', me, 'element_type')
     ok = False
@@ -857,7 +857,7 @@ def r6(report, db, F):
             rmap[vkey(p)] = factor(
                 p.value, lambda b: b[0] == 'call' and any(
                     isinstance(x, tuple) for x in b))
-    sval = ('sym', sd.params[0])
+    sval = ('sym', sd.all_params[0])
     for p in S.run(sd):
         sends = [e for e in p.flat(('call',)) if e.method() == 'send'
                  and e.args]
@@ -921,8 +921,8 @@ def read_scaling(fi):
 
 
 def send_scaling(fi):
-    vparam = fi.params[1] if fi.kind in ('instance', 'class') else \
-        fi.params[0]
+    vparam = fi.all_params[1] if fi.kind in ('instance', 'class') else \
+        fi.all_params[0]
     inner = None
     loopvar = None
     for n in ast.walk(fi.node):
@@ -974,7 +974,7 @@ def r7(report, db, type_ci):
                                                        ast.Attribute)
               and val.func.attr == meth
               and isinstance(val.func.value, ast.Name)
-              and val.func.value.id == fi.params[0]
+              and val.func.value.id == fi.all_params[0]
               and len(val.args) == nargs and not val.keywords
               and [getattr(a, 'id', None) for a in val.args] ==
               fi.params[1:1 + nargs])
